@@ -1,21 +1,49 @@
 #!/bin/bash
-# usage: seedconfirm.sh <ID> <A|B> <crate> <crate-dir-relative> <bin>
-# Confirms: patch applies; existing crate tests pass with the mutant; demo fails with / passes without; our check catches it.
+# usage: seedconfirm.sh <ID> <A|B> <crate> <crate-dir-relative> <bin> [storm]
+# Confirms a delivered seed (/tmp/seedout-<ID>/<V>): patch applies to the scratch copy of /repo's
+# current tree; the demonstration passes without and fails with the change; the affected crate's
+# existing test suite passes with the change; then runs our check against it. Writes
+# /tmp/mut/results/<ID>_<V>.json. With "storm" as 6th argument the demo is a stand-alone program
+# linked against libstorm.so (C API), not an integration test.
 set -u
-ID=$1; V=$2; CRATE=$3; CDIR=$4; BIN=$5
+ID=$1; V=$2; CRATE=$3; CDIR=$4; BIN=$5; KIND=${6:-test}
 SRC=/tmp/seedout-$ID/$V
 R=/tmp/mut/repo
+mkdir -p /tmp/mut/results /tmp/mut/p
 cd $R && git checkout -q -- . && git clean -fdq -e target >/dev/null 2>&1
 git apply --check $SRC/patch.diff || { echo "RESULT $ID/$V patch-does-not-apply"; exit 3; }
-# demo without mutant
-mkdir -p $R/$CDIR/tests && cp $SRC/demo.rs $R/$CDIR/tests/verif_demo.rs
-T0=$(cd $R && cargo test -p $CRATE --offline --test verif_demo 2>&1 | grep -E "^test result|error\[|error:" | head -3 | tr '\n' ' ')
-git apply $SRC/patch.diff
-T1=$(cd $R && cargo test -p $CRATE --offline --test verif_demo 2>&1 | grep -E "^test result|error\[|error:" | head -3 | tr '\n' ' ')
-rm -f $R/$CDIR/tests/verif_demo.rs
-# existing suite with mutant
+if [ "$KIND" = storm ]; then
+  ( cd $R && cargo build -p storm-ffi --offline >/dev/null 2>&1 )
+  rustc --edition 2021 $SRC/demo.rs -L $R/target/debug -l dylib=storm -o /tmp/mut/demo_$ID$V 2>/dev/null
+  T0=$(cd /tmp/mut && LD_LIBRARY_PATH=$R/target/debug timeout 120 /tmp/mut/demo_$ID$V 2>&1 | tail -1; echo "exit=${PIPESTATUS[0]}")
+  git apply $SRC/patch.diff
+  ( cd $R && cargo build -p storm-ffi --offline >/dev/null 2>&1 )
+  T1=$(cd /tmp/mut && LD_LIBRARY_PATH=$R/target/debug timeout 120 /tmp/mut/demo_$ID$V 2>&1 | tail -1; echo "exit=${PIPESTATUS[0]}")
+  rm -f /tmp/mut/demo_$ID$V
+else
+  mkdir -p $R/$CDIR/tests && cp $SRC/demo.rs $R/$CDIR/tests/verif_demo.rs
+  T0=$(cd $R && cargo test -p $CRATE --offline --test verif_demo 2>&1 | grep -E "^test result|error\[|error:" | head -3 | tr '\n' ' ')
+  git apply $SRC/patch.diff
+  T1=$(cd $R && cargo test -p $CRATE --offline --test verif_demo 2>&1 | grep -E "^test result|error\[|error:" | head -3 | tr '\n' ' ')
+  rm -f $R/$CDIR/tests/verif_demo.rs
+fi
 TS=$(cd $R && cargo test -p $CRATE --offline 2>&1 | grep -E "^test result" | awk '{p+=$4; f+=$6} END {print "passed",p,"failed",f}')
 git diff > /tmp/mut/p/seed_${ID}_$V.diff
 git checkout -q -- .
 echo "RESULT $ID/$V demo-clean=[$T0] demo-mutant=[$T1] suite-with-mutant=[$TS]"
-/verif/tools/mutrun.sh $BIN /tmp/mut/p/seed_${ID}_$V.diff 2>&1 | cut -c1-220 | head -8
+/verif/tools/mutrun.sh $BIN /tmp/mut/p/seed_${ID}_$V.diff > /tmp/mut/mutrun_${ID}_$V.txt 2>&1
+cut -c1-220 /tmp/mut/mutrun_${ID}_$V.txt | grep -v conda | head -8
+python3 - "$ID" "$V" "$CRATE" "$BIN" "$T0" "$T1" "$TS" <<'PY'
+import sys, json, re, subprocess
+ID,V,CRATE,BIN,T0,T1,TS=sys.argv[1:8]
+out=open(f"/tmp/mut/mutrun_{ID}_{V}.txt").read()
+ex=re.search(r"exit=(\d+)",out)
+sigs=sorted(set(re.findall(r"signature: (\S+)",out)))
+tier=re.search(r"^\s*\d+ (C\d\d tier=.*)$",out,re.M)
+head=subprocess.run(["git","-C","/repo","rev-parse","--short","HEAD"],capture_output=True,text=True).stdout.strip()
+vh=subprocess.run(["git","-C","/verif","rev-parse","--short","HEAD"],capture_output=True,text=True).stdout.strip()
+json.dump({"seed":f"{ID}-{V}","crate":CRATE,"check_bin":BIN,"repo_head":head,"verif_head":vh,
+  "demo_on_clean_tree":T0.strip(),"demo_with_change":T1.strip(),"crate_suite_with_change":TS.strip(),
+  "check_exit":int(ex.group(1)) if ex else None,"check_signatures":sigs,"check_tier_line":tier.group(1) if tier else None},
+  open(f"/tmp/mut/results/{ID}_{V}.json","w"),indent=1)
+PY
